@@ -41,7 +41,7 @@ package commitment
 
 //@ func SchedulerCommitment.Add
 //@   props C11
-//@   requires sc != nil && ec != nil
+//@   modifies sc, sc.Votes
 //@   ensures err == ErrAlreadyCommitted || err == nil
 //@   ensures (err == nil) == !old(inDom(sc.Votes, ec.NodeID))
 //@   ensures err != nil ==> sc.Commitment == old(sc.Commitment) && (forall k signature.PublicKey :: inDom(sc.Votes, k) == old(inDom(sc.Votes, k)) && sc.Votes[k] == old(sc.Votes[k]))
@@ -56,10 +56,10 @@ package commitment
 //@   modifies nothing
 //@   ensures err != nil ==> result0 == nil
 //@   ensures err == nil ==> inDom(p.SchedulerCommitments, p.HighestRank) && result0 == p.SchedulerCommitments[p.HighestRank]
-//@   ensures err == nil && !p.Discrepancy ==> NFailed(false, c, result0, len(c.Members)) <= int(allowedStragglers)
-//@   ensures err == nil && !p.Discrepancy ==> (forall h1, h2 HashT :: NVotedFor(false, c, result0, len(c.Members), h1) > 0 && NVotedFor(false, c, result0, len(c.Members), h2) > 0 ==> h1 == h2)
-//@   ensures err == nil && !p.Discrepancy ==> NVotedAny(false, c, result0, len(c.Members)) >= NCounted(false, c, len(c.Members)) - int(allowedStragglers)
-//@   ensures err == nil && p.Discrepancy ==> result0.Commitment != nil ==> 2 * NVotedFor(true, c, result0, len(c.Members), VoteOf(result0.Commitment)) > NCounted(true, c, len(c.Members))
+//@   ensures err == nil && !p.Discrepancy ==> NFailed(p.Discrepancy, c, result0, len(c.Members)) <= int(allowedStragglers)
+//@   ensures err == nil && !p.Discrepancy ==> (forall h1, h2 HashT :: NVotedFor(p.Discrepancy, c, result0, len(c.Members), h1) > 0 && NVotedFor(p.Discrepancy, c, result0, len(c.Members), h2) > 0 ==> h1 == h2)
+//@   ensures err == nil && !p.Discrepancy ==> NVotedAny(p.Discrepancy, c, result0, len(c.Members)) >= NCounted(p.Discrepancy, c, len(c.Members)) - int(allowedStragglers)
+//@   ensures err == nil && p.Discrepancy ==> result0.Commitment != nil ==> 2 * NVotedFor(p.Discrepancy, c, result0, len(c.Members), VoteOf(result0.Commitment)) > NCounted(p.Discrepancy, c, len(c.Members))
 //@   ensures timeout ==> err != ErrStillWaiting
 //@   ensures err == ErrDiscrepancyDetected ==> !p.Discrepancy
 //@   loop 1 invariant total == NCounted(p.Discrepancy, c, idx())
@@ -78,3 +78,27 @@ package commitment
 //@   loop 2 invariant forall h HashT :: visited(h) ==> required == total - int(allowedStragglers) - (commits - failures)
 //@   loop 3 invariant best >= 0 && (best == 0 || (inDom(votes, hash) && votes[hash] == best))
 //@   loop 3 invariant forall h HashT :: visited(h) ==> votes[h] <= best
+
+//@ func Pool.AddVerifiedExecutorCommitment
+//@   props C11
+//@   requires p != nil && c != nil && ec != nil
+//@   ensures p.Discrepancy == old(p.Discrepancy)
+//@   ensures err == nil ==> (exists j int :: scheduler.InRange(c, j) && scheduler.Key(c, j) == ec.NodeID)
+//@   ensures err == nil && old(p.Discrepancy) ==> (exists j int :: scheduler.InRange(c, j) && scheduler.Key(c, j) == ec.NodeID && (forall k int :: j <= k && k < len(c.Members) ==> scheduler.RoleAt(c, k) == scheduler.RoleBackupWorker))
+//@   ensures err == nil ==> p.HighestRank <= old(p.HighestRank)
+//@   ensures err == nil && old(p.Discrepancy) ==> p.HighestRank == old(p.HighestRank)
+//@   ensures err == nil && p.HighestRank < old(p.HighestRank) ==> ec.NodeID == old(ec.Header.SchedulerID)
+//@   ensures err != nil && err != ErrAlreadyCommitted ==> p.HighestRank == old(p.HighestRank)
+
+//@ func Pool.ProcessCommitments
+//@   props C11
+//@   requires p != nil && c != nil
+//@   ensures err != ErrDiscrepancyDetected ==> p.Discrepancy == old(p.Discrepancy) && p.HighestRank == old(p.HighestRank)
+//@   ensures err == ErrDiscrepancyDetected ==> p.Discrepancy && !old(p.Discrepancy) && p.HighestRank == old(p.HighestRank)
+//@   ensures err == ErrDiscrepancyDetected ==> (forall r uint64 :: inDom(p.SchedulerCommitments, r) ==> r == p.HighestRank)
+//@   ensures timeout ==> err != ErrStillWaiting
+//@   ensures err == nil ==> old(inDom(p.SchedulerCommitments, p.HighestRank)) && result0 == old(p.SchedulerCommitments[p.HighestRank])
+//@   ensures err == nil && !old(p.Discrepancy) ==> NFailed(old(p.Discrepancy), c, result0, len(c.Members)) <= int(allowedStragglers) && NVotedAny(old(p.Discrepancy), c, result0, len(c.Members)) >= NCounted(old(p.Discrepancy), c, len(c.Members)) - int(allowedStragglers)
+//@   ensures err == nil && old(p.Discrepancy) && result0.Commitment != nil ==> 2 * NVotedFor(old(p.Discrepancy), c, result0, len(c.Members), VoteOf(result0.Commitment)) > NCounted(old(p.Discrepancy), c, len(c.Members))
+//@   loop 1 invariant p.Discrepancy && p.HighestRank == old(p.HighestRank)
+//@   loop 1 invariant forall r uint64 :: visited(r) && inDom(p.SchedulerCommitments, r) ==> r == p.HighestRank
